@@ -92,12 +92,15 @@ type answer struct {
 }
 
 type world struct {
-	mu      sync.Mutex
-	now     time.Time
-	ctxs    []*hctx // every virtual context (for time advancement)
-	parked  []*call
-	nextID  int
-	aborted bool
+	// refuseDeadlines: SetDeadline fails and arms nothing
+	refuseDeadlines bool
+	ownTimeoutUsed  bool
+	mu              sync.Mutex
+	now             time.Time
+	ctxs            []*hctx // every virtual context (for time advancement)
+	parked          []*call
+	nextID          int
+	aborted         bool
 
 	// partialWrites: a write cut by a deadline reports half of its bytes as transferred
 	partialWrites bool
@@ -119,6 +122,8 @@ type world struct {
 	readsServed int
 	respOff     int
 }
+
+var errNoDeadlines = errors.New("conn: deadlines not supported")
 
 type peerScript struct {
 	name     string
@@ -204,6 +209,14 @@ func (w *world) releasable(c *call) (ok bool, opts []string) {
 		if w.closed || (!w.rDeadline.IsZero() && !w.rDeadline.After(w.now)) {
 			return true, []string{"fail"}
 		}
+		if w.refuseDeadlines && !w.ownTimeoutUsed {
+			// a transport without deadline support has an idle timeout of its own, which may strike
+			// at any read (once per execution)
+			if w.peer.silentAt >= 0 && w.readsServed >= w.peer.silentAt {
+				return true, []string{"own-timeout"}
+			}
+			return true, []string{"serve", "own-timeout"}
+		}
 		if w.peer.silentAt >= 0 && w.readsServed >= w.peer.silentAt {
 			return false, nil
 		}
@@ -254,6 +267,10 @@ func (w *world) release(c *call, opt string) string {
 		}
 	case "read":
 		switch {
+		case opt == "own-timeout":
+			w.ownTimeoutUsed = true
+			a.err = timeoutErr{}
+			label = "read:own-timeout"
 		case w.closed:
 			a.err = errClosed
 			label = "read:closed"
@@ -279,6 +296,12 @@ func (w *world) release(c *call, opt string) string {
 			}
 		}
 	case "setdeadline":
+		if w.refuseDeadlines {
+			// a transport without deadline support (an ssh channel, a pipe): the call fails, nothing is armed
+			a.err = errNoDeadlines
+			label = "setdeadline-refused:" + w.classOf(c.t)
+			break
+		}
 		if w.closed {
 			a.err = errClosed
 		}
